@@ -360,20 +360,6 @@ func c02Discover(mac net.HardwareAddr, mt byte, requested net.IP) []byte {
 	return append(b, 255)
 }
 
-// the stage-A harness re-states what internal/ipoe does around the provider call; whether ipoe answers an
-// unresolved DISCOVER/REQUEST is read off the ipoe sources of the tree under test
-var c02Guard = -1
-
-func c02IpoeGuardsUnresolved() bool {
-	if c02Guard < 0 {
-		c02Guard = 0
-		if b, err := os.ReadFile("../ipoe/resolve.go"); err == nil && strings.Contains(string(b), "func (c *Component) handleResolvedV4(") {
-			c02Guard = 1
-		}
-	}
-	return c02Guard == 1
-}
-
 func c02Handle(p *dhcp4local.Provider, pkt *dhcp4.Packet) (resp *dhcp4.Packet, err error, panicked bool) {
 	defer func() {
 		if r := recover(); r != nil {
@@ -435,15 +421,26 @@ func (w *c02World) op(f []string) string {
 	reg := allocator.GetGlobalRegistry()
 	switch f[0] {
 	case "PA": // PA sid vrf s4 s6 spd o4 o6 opd : AAA accept -> onAuthResult -> startNCP
-		if s.proto != "P" || s.dead || s.ppp.AllocCtx != nil {
+		if s.proto != "P" || s.dead {
 			return "skip"
 		}
 		p := s.ppp
 		p.mu.Lock()
+		if p.AllocCtx != nil {
+			// RE-authentication: the link renegotiates LCP (onLCPDown) and authenticates again
+			p.onLCPDown()
+			s.ipcp = false
+		}
 		p.Phase = ppp.PhaseAuthenticate
 		p.onAuthResult(true, c02Attrs(f[2], f[3], f[4], f[5], f[6], f[7], f[8]))
+		// the address IPCP will tell the peer; without an address startNCP does not (re)start IPCP, and a peer
+		// address left in the IPCP object by an earlier authentication is not told to anybody
+		told := p.ipcp.PeerConfig().PeerAddress
+		if p.IPv4Address == nil {
+			told = nil
+		}
 		out := fmt.Sprintf("pa v4=%s v6=%s pd=%s p4=%s p6=%s told=%s", c02Num(p.IPv4Address), c02Num(p.IPv6Address),
-			c02Pfx(p.IPv6Prefix), c02PoolTok(p.allocatedPool), c02PoolTok(p.allocatedIANAPool), c02Num(p.ipcp.PeerConfig().PeerAddress))
+			c02Pfx(p.IPv6Prefix), c02PoolTok(p.allocatedPool), c02PoolTok(p.allocatedIANAPool), c02Num(told))
 		p.mu.Unlock()
 		return out
 	case "PI": // PI sid <addr|none> : peer acks our request, then sends Configure-Request
@@ -498,13 +495,12 @@ func (w *c02World) op(f []string) string {
 				resolved = dhcp.ResolveV4(s.ctx, prof)
 			}
 		}
-		// as the component does: before the unresolved-guard fix the packet went to the provider even when
-		// resolution failed (Resolved = nil); with the fix (ipoe.handleResolvedV4 present) it is not answered
+		// as the component does (ipoe.handleResolvedV4): a request whose address resolution failed is not answered
 		mt := byte(1)
 		if f[0] == "IQ" {
 			mt = 3
 		}
-		if resolved == nil && c02IpoeGuardsUnresolved() {
+		if resolved == nil {
 			return strings.ToLower(f[0]) + " nil ctx4=" + c02Num(s.ctx.IPv4Address)
 		}
 		resp, err, panicked := c02Handle(w.prov, &dhcp4.Packet{SessionID: s.id, MAC: s.mac.String(),
